@@ -183,3 +183,12 @@ _run_c13 = run
 def run(ctx: Ctx):  # noqa: F811
     _run_c13(ctx)
     _enum_class_hooks(ctx)
+
+
+_run_before_converter_precondition = run
+
+
+def run(ctx: Ctx):  # noqa: F811
+    _run_before_converter_precondition(ctx)
+    from . import _sitebase as _sb
+    _sb.converter_precondition(ctx)
